@@ -292,7 +292,217 @@ CONTROL = (RTL, "    w = len(obj.ins)\n    if (w == 1):\n        return \"assign
            "    w = len(obj.ins)\n    obj.ins.reverse()\n    if (w == 1):\n        return \"assign {} = {};\\n\".format(getParentWireName(obj, obj.r), getParentWireName(obj, obj.ins[0]))\n\n    str += 'assign {} ='")
 
 
+def split_modules(text):
+    """module name -> sorted body lines (declaration order is immaterial per the property)"""
+    import re
+    out = {}
+    for mt in re.findall(r'(?ms)^\s*module\s+.*?^\s*endmodule', text):
+        name = re.match(r'\s*module\s+([A-Za-z_][\w$]*)', mt).group(1)
+        out.setdefault(name, []).append(sorted(l.strip() for l in mt.splitlines() if l.strip() and not l.strip().startswith('//')))
+    return out
+
+
+def fingerprint(D, roots):
+    """canonical description of the object graph reachable from the circuit (attribute names, scalar values, shape of
+    containers, identity structure) - what a later simulation or generation can observe"""
+    from ..elab import ObjV
+    index = {}
+    out = []
+
+    def enc(v, depth=0):
+        if isinstance(v, ObjV):
+            if id(v) not in index:
+                index[id(v)] = len(index)
+                rec = [v.cinfo.name if v.cinfo is not None else '?', {}]
+                out.append(rec)
+                for k in sorted(v.attrs):
+                    rec[1][k] = enc(v.attrs[k], depth + 1)
+            return ('obj', index[id(v)])
+        if isinstance(v, dict):
+            return ('dict', [(enc(k, depth + 1), enc(x, depth + 1)) for k, x in v.items()])
+        if isinstance(v, (list, tuple)):
+            return (type(v).__name__, [enc(x, depth + 1) for x in v])
+        if isinstance(v, (int, str, float, bool, type(None))):
+            return v
+        return ('other', type(v).__name__)
+    for r in roots:
+        enc(r)
+    return out
+
+
+def fp_diff(a, b, sim_read):
+    """first difference that matters: an attribute that existed before generation changed, or a new attribute the
+    simulation code reads"""
+    for i, (ra, rb) in enumerate(zip(a, b)):
+        if ra[0] != rb[0]:
+            return 'object %d changed class' % i
+        for k, v in ra[1].items():
+            if k not in rb[1]:
+                return 'attribute `%s` of a %s was deleted' % (k, ra[0])
+            if rb[1][k] != v:
+                return 'attribute `%s` of a %s changed (%s -> %s)' % (k, ra[0], str(v)[:60], str(rb[1][k])[:60])
+        for k in rb[1]:
+            if k not in ra[1] and k in sim_read:
+                return 'attribute `%s` (read by the simulation code) was added to a %s' % (k, ra[0])
+    return None
+
+
+def check_f(ctx, facts, sm, tier, seed):
+    """C19.f: the generator is structure-only code and is evaluated by the abstract interpreter; so is the property:
+    requests are repeated, interleaved with other circuits and with changes of the simulation state, made from
+    different ancestors - the texts must describe the same design and the circuit must be left as it was."""
+    import random
+    import re
+    from ..elab import ElabError, ElabRaise, PyExc, ObjV
+    from ..gen import hierarchy_text, module_text, module_name, non_inlined_objects, generator, GenError
+    from ..netlist import Design, NetError
+    from ..specs import SPECS
+    from ..summ import Summariser, NotSummarisable
+    from .c02 import overlay_source, CASES_REL
+    from .c03 import composites
+    rnd = random.Random(seed + 19)
+    f2 = Facts(sm.with_overlay({CASES_REL: overlay_source()}))
+    sim_read = set()
+    for rel in ('py4hw/simulation.py', 'py4hw/base.py'):
+        for n in ast.walk(sm.tree(rel)):
+            if isinstance(n, ast.Attribute) and isinstance(n.ctx, ast.Load):
+                sim_read.add(n.attr)
+    UART = 'py4hw/logic/protocol/uart/'
+    builders = [(n, b) for n, b in composites()]
+    builders += [
+        ('transpiled: HvAccum + HvMatch', lambda D: (D.make('HvAccum', 'acc', D.wire('a', 4), D.wire('en'), D.wire('clr'), D.wire('q', 8), rel=CASES_REL),
+                                                     D.make('HvMatch', 'm', D.wire('go'), D.wire('x', 3), D.wire('y', 5), rel=CASES_REL)) and None),
+        ('transpiled: HvPeriodic x2', lambda D: (D.make('HvPeriodic', 'p3', D.wire('q3', 8), D.wire('t3'), 3, 10, rel=CASES_REL),
+                                                 D.make('HvPeriodic', 'p5', D.wire('q5', 8), D.wire('t5'), 5, 100, rel=CASES_REL)) and None),
+        ('transpiled: UARTSerializer', lambda D: D.make('UARTSerializer', 'ser', D.wire('ready'), D.wire('valid'), D.wire('v', 8), D.wire('pulse'), D.wire('tx'), rel=UART + 'serdes.py') and None),
+        ('body: memories + sequencer', lambda D: (D.make('SynchronousMemory', 'mem', D.wire('ra', 2), D.wire('wa', 2), D.wire('we'), D.wire('rd', 4), D.wire('wd', 4)),
+                                                  D.make('MsgSequencer', 'seq', D.wire('rdy'), D.wire('vld'), D.wire('ch', 8), 'Hello', rel=UART + 'sequencer.py')) and None),
+    ]
+    for sp in SPECS:
+        cfgs = list(sp['configs'](tier))
+        if sp['seq'] is not None or tier == 'thorough' or len(builders) < 22:
+            p = cfgs[len(cfgs) // 2]
+            builders.append(('%s %s' % (sp['name'], p), (lambda D, sp=sp, p=p: sp['build'](D, p) and None)))
+    where = RTL
+    n_ok = 0
+    skipped = []
+    csum = {}
+
+    def state_attrs(cinfo):
+        key = (cinfo.rel, cinfo.name)
+        if key not in csum:
+            m = f2.lookup(cinfo, 'clock')
+            names = set()
+            if m is not None:
+                for n in ast.walk(m):
+                    if isinstance(n, (ast.Assign, ast.AugAssign)):
+                        for t in (n.targets if isinstance(n, ast.Assign) else [n.target]):
+                            if isinstance(t, ast.Attribute) and norm(t.value) == 'self':
+                                names.add(t.attr)
+                            if isinstance(t, ast.Subscript) and isinstance(t.value, ast.Attribute) and norm(t.value.value) == 'self':
+                                names.add(t.value.attr)
+            csum[key] = names
+        return csum[key]
+
+    def perturb(D):
+        """what simulation steps may have done: wire values and the attributes clock() methods assign"""
+        seen = set()
+
+        def walk(o):
+            if id(o) in seen:
+                return
+            seen.add(id(o))
+            for ch in o.attrs.get('children', {}).values():
+                walk(ch)
+            for w in list(o.attrs.get('_wires', {}).values()) if isinstance(o.attrs.get('_wires'), dict) else []:
+                pass
+            if not o.attrs.get('children'):
+                for a in state_attrs(o.cinfo):
+                    v = o.attrs.get(a)
+                    if isinstance(v, bool):
+                        continue
+                    if isinstance(v, int):
+                        o.attrs[a] = v + 1 + rnd.randrange(3)
+                    elif isinstance(v, list) and v and all(isinstance(x, int) for x in v):
+                        o.attrs[a] = [x ^ 1 for x in v]
+            for plist in ('inPorts', 'outPorts'):
+                for po in o.attrs.get(plist, []):
+                    w = po.attrs.get('wire')
+                    if isinstance(w, ObjV) and isinstance(w.attrs.get('value'), int) and isinstance(w.attrs.get('width'), int):
+                        w.attrs['value'] = rnd.randrange(1 << w.attrs['width'])
+        walk(D.sys)
+
+    for name, build in builders:
+        try:
+            D = Design(f2)
+            build(D)
+            fp0 = fingerprint(D, [D.sys])
+            t1 = hierarchy_text(D)
+            fp1 = fingerprint(D, [D.sys])
+            d = fp_diff(fp0, fp1, sim_read)
+            if d:
+                ctx.violation('C19.f', 'alters-circuit:%s' % name.split(' ')[0], 'generating Verilog changes the circuit: %s' % d, where,
+                              witness=dict(design=name, history='build, generate the whole hierarchy, inspect the circuit'))
+                continue
+            m1 = split_modules(t1)
+            # a second system in the same process, generated in between
+            other = D.el.instantiate(D.el.find_class('HWSystem', 'py4hw/base.py'), [], {})
+            keep = D.sys
+            D.sys = other
+            w = D.wire('zz', 5)
+            D.make('Reg', 'r', w, D.wire('zq', 5))
+            D.make('Not', 'n', w, D.wire('zn', 5))
+            hierarchy_text(D)
+            D.sys = keep
+            t2 = hierarchy_text(D)
+            if split_modules(t2) != m1:
+                ctx.violation('C19.f', 'repeat:%s' % name.split(' ')[0], 'a repeated request (with a request for another circuit in between) yields a different design', where,
+                              witness=dict(design=name, differing_modules=[k for k in set(m1) | set(split_modules(t2)) if m1.get(k) != split_modules(t2).get(k)][:4]))
+                continue
+            perturb(D)
+            t3 = hierarchy_text(D)
+            if split_modules(t3) != m1:
+                m3 = split_modules(t3)
+                dm = [k for k in set(m1) | set(m3) if m1.get(k) != m3.get(k)][:3]
+                lines = []
+                for k in dm[:1]:
+                    a, b = (m1.get(k) or [[]])[0], (m3.get(k) or [[]])[0]
+                    lines = [x for x in b if x not in a][:3]
+                ctx.violation('C19.f', 'state-dependent:%s' % name.split(' ')[0], 'the text depends on the momentary simulation state: after state / wire values change the same circuit yields a different design',
+                              where, witness=dict(design=name, differing_modules=dm, new_lines=lines, history='generate, simulate some cycles, generate again'))
+                continue
+            # a sub-block requested directly
+            bad = []
+            g = generator(D)
+            first = {}
+            for obj in non_inlined_objects(D, g, None):
+                first.setdefault(module_name(D, obj), obj)      # the object whose body the whole-design text carries under that name
+            for mn, obj in list(first.items())[:40]:
+                mt = split_modules(module_text(D, obj)).get(mn)
+                if mt is None or mn not in m1:
+                    continue
+                if mt[0] not in m1[mn]:
+                    a, b = m1[mn][0], mt[0]
+                    bad.append(dict(design=name, module=mn, only_when_requested_directly=[x for x in b if x not in a][:3], only_in_whole_design=[x for x in a if x not in b][:3]))
+            for bd in bad[:4]:
+                ctx.violation('C19.f', 'ancestor-dependent:%s:%s' % (name.split(' ')[0], re.sub(r'_[0-9a-f]{3,}$', '_#', bd['module'])),
+                              'the module text of a sub-block depends on where the request is made from', where, witness=bd)
+            if bad:
+                continue
+            n_ok += 1
+        except ElabRaise:
+            skipped.append('%s: construction / generation refuses' % name)
+        except (ElabError, NetError, PyExc, GenError) as e:
+            skipped.append('%s: %s' % (name, str(e)[:70]))
+    ctx.analysed['c19f_skipped'] = skipped[:12]
+    ctx.floor('C19.f', 'designs whose generation requests were replayed', n_ok + sum(1 for v in ctx.violations if v['rule'] == 'C19.f'), 15)
+    if not any(v['rule'] == 'C19.f' for v in ctx.violations):
+        ctx.ok('C19.f', 'request-histories', '%d designs (library compositions, second clock domain, hand-written bodies, transpiled blocks): generation leaves the object graph as it was; '
+               'repeated / interleaved requests, requests after state changes and requests for sub-blocks give the same modules' % n_ok, grade='bounded')
+
+
 def run(ctx, sm, facts):
+    ctx.rule('C19.f', 'request histories replayed on elaborated designs: circuit unchanged, same modules on every request')
     ctx.rule('C19.a', 'no store / delete / mutating call / construction on circuit-rooted values in the generation code')
     ctx.rule('C19.b', 'wire-name cache completely reset at every entry point; hit test on scope identity')
     ctx.rule('C19.c', 'no mutable default, memoising decorator or module/class-level container written in the generation code; fresh emitted-module list')
@@ -327,5 +537,6 @@ def run(ctx, sm, facts):
                       witness=dict(history='two generation requests in one process (same or different circuits): the second result depends on the first'))
     if not ps:
         ctx.ok('C19.c', 'no-persistent-state', 'no mutable default, memoising decorator or module/class-level container write in %d generation functions' % nf)
-    ctx.not_decided.append('textual equality across runs (follows from purity + deterministic iteration, not proved)')
+    check_f(ctx, facts, sm, ctx.tier, ctx.seed)
+    ctx.not_decided.append('textual equality across runs for designs outside the replayed catalogue (follows from purity + deterministic iteration, not proved)')
     ctx.assumptions.append('circuit values are recognised by parameter name / annotation and by being derived from them (listed vocabulary in the rule)')
